@@ -96,3 +96,20 @@ func Kind(p packet.Generic) string {
 	}
 	return strings.ToUpper(p.Type().String())
 }
+
+// Clone returns an independent copy of a packet (via the reference codec), so
+// that event logs are not affected by later mutation of the original.
+func Clone(p packet.Generic) packet.Generic {
+	if p == nil {
+		return nil
+	}
+	b, err := Encode(p)
+	if err != nil {
+		return p
+	}
+	q, err := Decode(b)
+	if err != nil {
+		return p
+	}
+	return q
+}
